@@ -532,6 +532,18 @@ func main() {
 		e3(strat, false, b)
 		e3(strat, true, b)
 	}
+	d42, d43 := 5, 4
+	if report.Thorough() {
+		d42, d43 = 6, 5
+	}
+	idx4 := 1 << 20
+	for _, engine := range []string{"sherpa", "olla"} {
+		for _, bal := range []string{"priority", "round-robin", "least-connections"} {
+			e4(engine, bal, 2, d42, &idx4)
+			e4(engine, bal, 3, d43, &idx4)
+		}
+	}
+	res.Info["E4"] = fmt.Sprintf("assembled system (2 engines x 3 balancers): every history ending in a request over {flip X, forced health round, request}, 2 endpoints depth %d, 3 endpoints depth %d; scripted backends see every dispatch", d42, d43)
 	res.Info["bounds"] = map[string]any{"E1": "lists n<=4 over status(6) x priority{0,1,2} x 3 balancers (priority: 8 RNG cells)", "E2": fmt.Sprintf("2 endpoints depth %d, 3 endpoints depth %d; events: periodic health round (61 s later) and forced health round (at once) with every per-endpoint outcome mask, request with every per-endpoint refuse mask", d2, d3),
 		"E3": fmt.Sprintf("3 threads, preemption bound %d", b)}
 	res.Info["rule"] = "states = distinct histories ending in a request (E2) and distinct dispatch outcomes (E3); every dispatch is produced by the real RetryHandler.ExecuteWithRetry + selector + repository + health checker"
